@@ -564,7 +564,23 @@ def _execute(item):
 
 
 def on_crash(item, res):
-    return None
+    """Native crash of a worker: re-run only the ORIGINAL (all bindings) in a subprocess; if that dies too the case
+    is skipped and counted, otherwise the crash is attributed to the optimized model => violation."""
+    import json
+    import os
+    import subprocess
+    import sys
+    code = ("import json,sys\nfrom vf import mz, optrun\nfrom vf.props import c09\nitem=json.loads(sys.argv[1])\n"
+            "spec=c09.spec_of(item)\nb=mz.build(spec)\no=optrun.Orig(b.model)\n"
+            "[o.admit(b.feeds(k, dict(mz.BIND_DEFAULT, **bd))) for bd in c09.bindings_of(spec) for k in range(2)]\n"
+            "print('ORIG-OK')\n")
+    root = os.path.dirname(os.path.dirname(os.path.dirname(os.path.abspath(__file__))))
+    try:
+        p = subprocess.run([sys.executable, "-W", "ignore", "-c", code, json.dumps(item)], capture_output=True, text=True,
+                           timeout=300, cwd=root)
+    except subprocess.TimeoutExpired:
+        return "original-hangs"
+    return None if "ORIG-OK" in p.stdout else "original-crashes-runtime"
 
 
 def summarize(items, results, tier):
